@@ -306,14 +306,14 @@ def coq_eval(tag, header, exprs, timeout=900):
     return vals
 
 
-def coq_eval_sharded(tag, header, exprs, shard=250, jobs=8):
+def coq_eval_sharded(tag, header, exprs, shard=250, jobs=8, timeout=900):
     """coq_eval over shards run in parallel processes."""
     from concurrent.futures import ThreadPoolExecutor
     shards = [exprs[i:i + shard] for i in range(0, len(exprs), shard)]
     if not shards:
         return []
     with ThreadPoolExecutor(max_workers=jobs) as ex:
-        futs = [ex.submit(coq_eval, "%s_s%d" % (tag, k), header, sh) for k, sh in enumerate(shards)]
+        futs = [ex.submit(coq_eval, "%s_s%d" % (tag, k), header, sh, timeout) for k, sh in enumerate(shards)]
         out = []
         for f in futs:
             out += f.result()
@@ -328,6 +328,9 @@ def impl_env(extra=None):
     env["PYTHONHASHSEED"] = "0"
     env["VECTORIZERS_VERIF"] = "1"
     env.setdefault("NUMBA_NUM_THREADS", "4")
+    # BLAS / OpenMP pools multiply with numba's and with the parallel children of a check: keep them at one thread
+    for k in ("OMP_NUM_THREADS", "OPENBLAS_NUM_THREADS", "MKL_NUM_THREADS"):
+        env.setdefault(k, "1")
     env["PIP_NO_INDEX"] = "1"
     # numba's on-disk cache must never serve code compiled from an older working tree
     import tempfile
